@@ -1238,20 +1238,18 @@ class Epoch(object):
         o = iint((11.0 * j + 14.0) / 30.0)
         h = 30 * q + j + 1
         jj = k - o + n - 1
-        # jj is the number of the day in the moslem year h. If jj > 354 we need
-        # to know if h is a leap year
-        if jj > 354:
-            cl = h % 30
-            dl = (11 * cl + 3) % 30
-            if dl < 19:
-                jj -= 354
-                h += 1
-            else:
-                jj -= 355
-                h += 1
-            if jj == 0:
-                jj = 355
-                h -= 1
+        # jj is the number of the day counted from the start of moslem year h.
+        # A civil year is longer than a moslem one: jj may belong to the year
+        # before h, or to one of the two years after it
+        def year_length(hh):
+            return 355 if (11 * (hh % 30) + 3) % 30 > 18 else 354
+
+        if jj < 1:
+            h -= 1
+            jj += year_length(h)
+        while jj > year_length(h):
+            jj -= year_length(h)
+            h += 1
         # Now, let's convert DOY jj to month and day
         if jj == 355:
             m = 12
